@@ -298,6 +298,12 @@ def D3(m, R):
                 all(isinstance(x, ast.Name) or True for x in [expr]) and 'str(%s)' % selfn in norm(expr):
             R.ok(sf, ret, 'same expression as the twin over str(self), whose payload is the rendering', construct=cons)
             continue
+        calls_twin = any(isinstance(x, ast.Call) and isinstance(x.func, ast.Attribute) and x.func.attr == name and
+                         (norm(x.func.value) == wrapped or isinstance(x.func.value, ast.Name)) for x in sf.walk())
+        if not calls_twin:
+            R.viol(sf, ret, 'returns %s without ever calling AnsiString.%s: the AnsiStr result is computed by something other than the twin operation' % (short(expr), name),
+                   construct=cons)
+            continue
         R.undecided(sf, ret, 'twin form not recognised: %s' % short(expr), construct=cons)
     # the AnsiStr char iterator re-wraps the wrapped string's characters
     if '_AnsiStrCharIterator' in m.classes:
@@ -626,6 +632,15 @@ def D5(m, R):
         R.check(not problems, f, lp, 're.finditer(spec, TEXT, IGNORECASE iff not match_case)', '; '.join(problems), construct=cons)
         # (3) loop body per sign region of count
         mv = lp.target.id if isinstance(lp.target, ast.Name) else '?'
+        foreign = []
+        for x in ast.walk(lp):
+            if isinstance(x, ast.If) and not (names_in(x.test) <= {'count'}):
+                if any(isinstance(y, (ast.Continue, ast.Break, ast.Return)) for y in ast.walk(x)):
+                    foreign.append(x)
+        if foreign:
+            R.viol(f, foreign[0], 'a match can be skipped / the scan ended under `%s`, a condition other than count: not every one of the first count matches of re.finditer '
+                                  'is formatted (and skipped ones do not use up count)' % short(foreign[0].test), construct=name + ' match filter')
+            continue
         for region, rank in (('<0', -1), ('=0', 0), ('>0', 1)):
             cons = '%s count%s' % (name, region)
             calls, decs, others = [], [], []
